@@ -35,47 +35,6 @@ def fnv (bs : Bytes) : UInt64 :=
 def digest (bs : Bytes) : String :=
   if bs.length ≤ 48 then Hex.enc bs else "h:" ++ toString (fnv bs).toNat
 
-/-- reader driven by the shape, except that the frame opened by the `k`-th start is passed with
-`lyb_read_start_siblings; lyb_skip_siblings; lyb_read_stop_siblings`.  Returns the final state and the payloads read. -/
-def readSkipping (P : Params) : List Op → Nat → R × List Bytes → Option (R × List Bytes)
-  | [], _, st => some st
-  | .start :: r, 0, st =>
-    let r1 := rstart P st.1
-    let r2 := rskip P (r1.inp.length + 2) r1
-    match rstop r2 with
-    | none => none
-    | some r3 =>
-      -- drop the ops of the skipped frame
-      let rec dropFrame : List Op → Nat → List Op
-        | [], _ => []
-        | .start :: t, d => dropFrame t (d + 1)
-        | .stop :: t, 0 => t
-        | .stop :: t, d + 1 => dropFrame t d
-        | .write _ :: t, d => dropFrame t d
-      match rrun P (r3, st.2) ((dropFrame r 0).map Op.shape) with
-      | none => none
-      | some st' => some st'
-  | .start :: r, k + 1, st => match rop P st .start with
-    | none => none
-    | some st' => readSkipping P r k st'
-  | op :: r, k, st => match rop P st op.shape with
-    | none => none
-    | some st' => readSkipping P r k st'
-
-def expectSkipping : List Op → Nat → List Bytes
-  | [], _ => []
-  | .start :: r, 0 =>
-    let rec dropFrame : List Op → Nat → List Op
-      | [], _ => []
-      | .start :: t, d => dropFrame t (d + 1)
-      | .stop :: t, 0 => t
-      | .stop :: t, d + 1 => dropFrame t d
-      | .write _ :: t, d => dropFrame t d
-    payloads (dropFrame r 0)
-  | .start :: r, k + 1 => expectSkipping r k
-  | .write bs :: r, k => bs :: expectSkipping r k
-  | .stop :: r, k => expectSkipping r k
-
 def hexList (l : List Nat) : String := Hex.enc (l.map UInt8.ofNat)
 
 def handle (op : String) (args : List String) : String :=
@@ -102,7 +61,7 @@ def handle (op : String) (args : List String) : String :=
       | some img =>
         let rt := match readSkipping P ops k ({ inp := img }, []) with
           | none => false
-          | some (r, got) => r.inp.isEmpty && r.frames.isEmpty && got == expectSkipping ops k
+          | some (r, got) => r.inp.isEmpty && r.frames.isEmpty && got == payloadsSkipping ops k
         "ok rt=" ++ (if rt then "1" else "0")
     | _, _ => "err BadArg"
   | "hash", [m, n, c] =>
